@@ -163,6 +163,23 @@ def action_rewrites(slot, v) -> List[Tuple[str, Any]]:
                 out.append((f"{slot}[{i}]: object -> string", lambda c, s=slot, i=i, a=a: set_at(c, s + (i,), a["type"])))
     elif isinstance(v, dict):
         out.append((f"{slot}: action object -> [object]", lambda c, s=slot, v=v: set_at(c, s, [copy.deepcopy(v)])))
+    # the branches of a built-in `choose` action are action slots (and guard / cond slots) of their own
+    items = v if isinstance(v, list) else [v]
+    for i, a in enumerate(items):
+        if not (isinstance(a, dict) and a.get("type") in ("xstate.choose", "choose") and isinstance(a.get("params"), dict)):
+            continue
+        base = slot + ((i,) if isinstance(v, list) else ()) + ("params", "conditions")
+        for j, br in enumerate(a["params"].get("conditions") or []):
+            if not isinstance(br, dict):
+                continue
+            for x, y in (("guard", "cond"), ("cond", "guard")):
+                if x in br:
+                    def f(c, b=base + (j,), x=x, y=y):
+                        d = get_at(c, b)
+                        d[y] = d.pop(x)
+                    out.append((f"{base + (j,)}: {x} -> {y}", f))
+            if "actions" in br:
+                out.extend(action_rewrites(base + (j, "actions"), br["actions"]))
     return out
 
 
@@ -546,7 +563,20 @@ def collide_machines(tier: str) -> Dict[str, Dict[str, Any]]:
     return out
 
 
+def extra_machines() -> Dict[str, Dict[str, Any]]:
+    from xstate_statemachine import actions as A
+
+    return {"choose": {
+        "id": "ch", "initial": "a", "states": {
+            "a": {"entry": [A.choose([{"cond": "isAlt", "actions": "enAlt"}, {"actions": [{"type": "enDefault"}]}])],
+                  "on": {"E": {"target": "b", "actions": [A.choose([{"guard": "isOk", "actions": ["mark", "mark2"]},
+                                                                     {"guard": {"type": "not", "children": ["isOk"]}, "actions": {"type": "other", "params": {"k": 1}}}]), "tail"]}}},
+            "b": {"on": {"BACK": "a"}}}}}
+
+
 def machine_by_name(name: str):
+    if name in extra_machines():
+        return extra_machines()[name]
     if name in C.corpus():
         return C.corpus()[name]
     if name.startswith("collide:"):
@@ -562,6 +592,8 @@ def units(tier: str) -> List[Any]:
     for name in C.corpus():
         us.append(("equiv", name, tier))
         us.append(("corrupt", name, tier))
+    for name in extra_machines():
+        us.append(("equiv", name, tier))
     for t in F.trees_upto(2 if tier == "quick" else 3):
         us.append(("tree", t, tier))
     for name in collide_machines(tier):
@@ -574,7 +606,7 @@ def run_unit(unit):
     kind, payload, tier = unit
     res = dict(states=0, transitions=0, executions=0, evaluations=0, distinct_count=0, violations=[], samples=[], caps=[])
     if kind == "equiv":
-        cfg = C.corpus()[payload]
+        cfg = machine_by_name(payload)
         rws = rewrites(cfg) + target_rewrites(cfg)
         for rw in rws:
             check_equiv(payload, cfg, [rw], res, payload)
